@@ -17,17 +17,22 @@ pub struct Scenario {
     pub key_seed: u64,
     /// also run the same lines through the real uci_loop and compare transcripts
     pub also_loop_driven: bool,
+    /// Some(k): the whole session is a byte stream read by the real uci_loop (k = 1: one
+    /// chunk, k >= 2: reads of k bytes) that ends with end of input; the board is compared
+    /// after the loop has returned
+    pub stream: Option<usize>,
 }
 
 impl Scenario {
     pub fn to_json(&self) -> Value {
-        json!({"lines": self.lines, "key_seed": self.key_seed, "also_loop_driven": self.also_loop_driven})
+        json!({"lines": self.lines, "key_seed": self.key_seed, "also_loop_driven": self.also_loop_driven, "stream": self.stream})
     }
     pub fn from_json(v: &Value) -> Option<Scenario> {
         Some(Scenario {
             lines: v["lines"].as_array()?.iter().map(|x| x.as_str().unwrap_or("").to_string()).collect(),
             key_seed: v["key_seed"].as_u64().unwrap_or(0),
             also_loop_driven: v["also_loop_driven"].as_bool().unwrap_or(false),
+            stream: v["stream"].as_u64().map(|x| x as usize),
         })
     }
 }
@@ -83,7 +88,64 @@ fn move_probes(probes: &mut Counters, history: &[Pos], line: &str) {
     }
 }
 
+/// The session as a byte stream through the real read loop; ends with end of input (no
+/// quit), so that the loop returns and the engine object can be inspected afterwards.
+pub fn run_stream(sc: &Scenario) -> Judged {
+    let mut j = Judged { violations: vec![], probes: Counters::default(), positions_checked: 0, distinct: vec![], log_hash: 0 };
+    let mut st = SimState::new(sc.key_seed, 0);
+    st.max_nodes_per_search = 2_000_000;
+    st.ev(&format!("cfg c04 stream key_seed={} chunk={:?}", sc.key_seed, sc.stream));
+    let mut bytes: Vec<u8> = vec![];
+    for l in &sc.lines {
+        bytes.extend_from_slice(l.as_bytes());
+        bytes.push(b'\n');
+    }
+    match sc.stream {
+        Some(k) if k >= 2 => {
+            for c in bytes.chunks(k) {
+                st.push_bytes(c);
+            }
+        }
+        _ => st.push_bytes(&bytes),
+    }
+    j.probes.add("stream_sessions", 1);
+    j.probes.max("max_position_line_bytes", sc.lines.iter().map(|l| l.len()).max().unwrap_or(0) as u64);
+    let proc_ = Proc::start(st, None);
+    // the engine object lives out here so that its board can be read after the loop ends
+    let (o, fl) = proc_.run(engine::uci::Flounder::new);
+    let Some(mut fl) = fl else {
+        j.violations.push(("crash".into(), format!("engine start: {:?}", o)));
+        return j;
+    };
+    let (o, _) = proc_.run(|| fl.uci_loop());
+    let expected = sc.lines.iter().rev().find_map(|l| if l.trim_start().starts_with("position") { interpret_position(l).map(|x| x.0) } else { None });
+    match o {
+        Outcome::Returned => {
+            if let Some(exp) = expected {
+                // valid only if no ucinewgame came after the last position command
+                let last_pos = sc.lines.iter().rposition(|l| l.trim_start().starts_with("position")).unwrap_or(0);
+                if !sc.lines[last_pos..].iter().any(|l| l.trim() == "ucinewgame") {
+                    j.positions_checked += 1;
+                    j.distinct.push(hash_str(&exp.to_fen()));
+                    if let Some(d) = board_diff(fl.verif_board(), &exp) {
+                        let class = if d.starts_with("inconsistent") { "inconsistent_board" } else { "board_mismatch" };
+                        j.violations.push((class.into(), format!("session read through the input loop ({} bytes, last position line {} bytes): {}", bytes.len(), sc.lines[last_pos].len(), d)));
+                    }
+                }
+            }
+        }
+        Outcome::Crash(m) => j.violations.push(("crash".into(), format!("engine crashed while reading the session through the input loop ({} bytes): {}", bytes.len(), m))),
+        Outcome::Aborted(Abort::NodeCap) => j.probes.add("inconclusive_step_cap", 1),
+        o => j.violations.push(("crash".into(), format!("{:?}", o))),
+    }
+    j.log_hash = proc_.st.borrow().log_hash;
+    j
+}
+
 pub fn run_scenario(sc: &Scenario) -> Judged {
+    if sc.stream.is_some() {
+        return run_stream(sc);
+    }
     let mut j = Judged {
         violations: vec![],
         probes: Counters::default(),
@@ -354,7 +416,61 @@ pub fn generate(seed: u64) -> Scenario {
         lines,
         key_seed: rng.next_u64(),
         also_loop_driven: rng.chance(1, 20),
+        stream: None,
     }
+}
+
+/// A short session read through the input loop whose last position command is long: a game
+/// of up to ~4000 plies (piece shuffles after a seeded opening), i.e. a line of up to 20 KB.
+pub fn generate_stream(seed: u64) -> Scenario {
+    let mut rng = Rng::new(seed);
+    let mut lines = vec![];
+    if rng.chance(1, 2) {
+        lines.push("isready".to_string());
+    }
+    if rng.chance(1, 2) {
+        let (ms, _) = gen::playout(&mut rng, &Pos::startpos(), 10, 1);
+        lines.push(format!("position startpos moves {}", gen::moves_uci(&ms).join(" ")));
+    }
+    let (root, start) = if rng.chance(1, 2) {
+        ("startpos".to_string(), Pos::startpos())
+    } else {
+        let p = gen_fen_position(&mut rng);
+        (format!("fen {}", p.to_fen()), p)
+    };
+    let open = rng.usize_below(20);
+    let (mut ms, ps) = gen::playout(&mut rng, &start, open, 1);
+    let mut pos = ps.last().unwrap().clone();
+    let target = match rng.below(4) {
+        0 => rng.range(0, 300),
+        1 => rng.range(1500, 1800),
+        2 => rng.range(1800, 2600),
+        _ => rng.range(2600, 4200),
+    } as usize;
+    // shuffle: any reversible piece move and its way back, for both sides
+    while ms.len() < target {
+        let rev = |p: &Pos| -> Option<RMove> { p.legal_moves().into_iter().find(|m| m.flags == 0 && m.promo == 0 && kind(p.sq[m.from as usize]) != PAWN && kind(p.sq[m.from as usize]) != KING) };
+        let Some(a) = rev(&pos) else { break };
+        let p1 = pos.make(&a);
+        let Some(b) = rev(&p1) else { break };
+        let p2 = p1.make(&b);
+        let (a2, b2) = (RMove { from: a.to, to: a.from, promo: 0, flags: 0 }, RMove { from: b.to, to: b.from, promo: 0, flags: 0 });
+        let Some(a2) = p2.find_uci(&a2.uci()) else { break };
+        let p3 = p2.make(&a2);
+        let Some(b2) = p3.find_uci(&b2.uci()) else { break };
+        pos = p3.make(&b2);
+        ms.extend([a, b, a2, b2]);
+    }
+    let mut l = format!("position {}", root);
+    if !ms.is_empty() {
+        l.push_str(" moves ");
+        l.push_str(&gen::moves_uci(&ms).join(" "));
+    }
+    lines.push(l);
+    if rng.chance(1, 3) {
+        lines.push("isready".to_string());
+    }
+    Scenario { lines, key_seed: rng.next_u64(), also_loop_driven: false, stream: Some(*rng.pick(&[1usize, 1, 4096, 8192, 1000, 65536])) }
 }
 
 fn violations_of(sc: &Scenario, j: &Judged, i: u64, seed: u64) -> Vec<Violation> {
@@ -479,7 +595,8 @@ pub fn run(ctx: &Ctx) -> i32 {
     let sims = ctx.n(4000, 100000);
     let rep = run_batch(sims, ctx.workers, |i| {
         let seed = derive(ctx.seed, "C04", i);
-        let sc = generate(seed);
+        // one sim in twelve reads its session through the real input loop, with a long last line
+        let sc = if i % 12 == 7 { generate_stream(seed) } else { generate(seed) };
         let j = run_scenario(&sc);
         let mut res = SimResult::default();
         res.evaluations = j.positions_checked.max(1);
@@ -496,7 +613,7 @@ pub fn run(ctx: &Ctx) -> i32 {
     });
     let ev = Evidence {
         level: "exploration",
-        rule: "One sim = one engine process fed 1-12 position commands (startpos or a FEN written by the rules model at a seeded point of a seeded game, with halfmove 0..150, fullmove 1..6000 and a seeded subset of the supported castling rights; move lists of 0..300 plies biased towards castling, en passant, promotions incl. capturing ones, rook captures on corners), interleaved with isready / ucinewgame / go depth 1, with CR, tab and blank-run variations; one command in four is related to an earlier one of the same process (the same text again, the same game a few plies further, the same game with moves taken back). After every position line the engine's board (64 squares, side, four rights, ep target, internal consistency) must equal the rules model's; other commands (isready, go, ...) must leave it alone; nothing is claimed between ucinewgame and the next position command; 5% of sessions are re-run through the real uci_loop and must give the same transcript. Evaluations = position commands compared; distinct by final position.".into(),
+        rule: "One sim = one engine process fed 1-12 position commands (startpos or a FEN written by the rules model at a seeded point of a seeded game, with halfmove 0..150, fullmove 1..6000 and a seeded subset of the supported castling rights; move lists of 0..300 plies biased towards castling, en passant, promotions incl. capturing ones, rook captures on corners), interleaved with isready / ucinewgame / go depth 1, with CR, tab and blank-run variations; one command in four is related to an earlier one of the same process (the same text again, the same game a few plies further, the same game with moves taken back). After every position line the engine's board (64 squares, side, four rights, ep target, internal consistency) must equal the rules model's; other commands (isready, go, ...) must leave it alone; nothing is claimed between ucinewgame and the next position command; 5% of sessions are re-run through the real uci_loop and must give the same transcript; one sim in twelve is a short session read as a byte stream by the real input loop (one chunk or 1000 B-64 KiB reads) whose last position command is a game of up to ~4000 plies (a line of up to 20 KB), compared after the loop has returned at end of input. Evaluations = position commands compared; distinct by final position.".into(),
         extra: serde_json::Map::new(),
         assumptions: vec![
             "the oracle is the independent rules model R (perft-validated), not the engine's generator".into(),
